@@ -115,6 +115,17 @@ func (p idProducer) X25519EncryptionKey() (string, []byte, error) {
 
 var customIds = []string{"", "id-a", "id-b"}
 
+// retaining hands out the very same key slice on every call.
+type retaining struct {
+	id  string
+	key []byte
+}
+
+func (p *retaining) X25519EncryptionKey() (string, []byte, error) { return p.id, p.key, nil }
+func (p *retaining) PreviousX25519EncryptionKey() (string, []byte, error) {
+	return "", nil, nil
+}
+
 func other(side string) string {
 	if side == "node" {
 		return "server"
@@ -328,6 +339,24 @@ func one(p *harness.Pool, k kase, r *engine.Report) (string, string) {
 			return "binding:key-id:custom-id", fmt.Sprintf("a message sealed under key id %q opened for a receiver whose key id is %q (same shared secret)", si, ri)
 		}
 		if si == ri {
+			// a producer that keeps its derived key and hands the same slice out
+			// every time: the key is the producer's, a second message must be
+			// sealed under it like the first
+			_, key, _ := snd.X25519EncryptionKey()
+			keep := &retaining{id: si, key: append([]byte{}, key...)}
+			for i := 0; i < 2; i++ {
+				ct2, err := nodeenrollment.EncryptMessage(ctx, msg, keep, nodeenrollment.WithRandomReader(harness.DetRand("enc-iv")))
+				if err != nil {
+					return "encrypt:error", fmt.Sprintf("EncryptMessage #%d with a retaining producer failed: %v", i+1, err)
+				}
+				_, b2 := message(k.Msg, k.Size, k.Seed)
+				if err := nodeenrollment.DecryptMessage(ctx, ct2, rcv, b2); err != nil || !proto.Equal(msg, b2) {
+					return "roundtrip:fails:retained-key", fmt.Sprintf("message #%d from a producer that hands out the same key slice every time does not open for its peer: %v", i+1, err)
+				}
+			}
+			if !bytes.Equal(keep.key, key) {
+				return "producer-key-modified", "EncryptMessage changed the key bytes its key producer handed out"
+			}
 			r.Branch("opened-with-current-key")
 		} else {
 			r.Branch("rejected-wrong-key-id")
